@@ -231,7 +231,11 @@ func (e *Enc) runBody(fn *ssa.Function, con *FuncContract, ur *UnitResult) {
 		}
 	}
 	if con.assigns != nil {
-		e.frameObligations(fr, con, args, &out, ur)
+		if con.opts["frame-trusted"] == "true" {
+			e.modelled("TRUSTED frame (assigns clause assumed by callers, not checked against the body): " + shortFuncName(fn))
+		} else {
+			e.frameObligations(fr, con, args, &out, ur)
+		}
 	}
 }
 
